@@ -24,7 +24,11 @@ func (p *Program) Print(o PrintOpts) string {
 	}
 	for _, c := range p.Classes {
 		if c.IsIface {
-			fmt.Fprintf(&sb, "interface %s {}\n", c.Name)
+			if len(c.Interfaces) > 0 {
+				fmt.Fprintf(&sb, "interface %s extends %s {}\n", c.Name, strings.Join(c.Interfaces, ", "))
+			} else {
+				fmt.Fprintf(&sb, "interface %s {}\n", c.Name)
+			}
 			continue
 		}
 		fmt.Fprintf(&sb, "class %s extends %s", c.Name, c.Parent)
